@@ -127,26 +127,34 @@ Proof.
   cbn [flat_map]. rewrite forallb_app, contact_secure_C, IH. reflexivity.
 Qed.
 
+Lemma c_start_secure : forall fixed cc x stls hosted st' ev err,
+  sink_ok fixed cc -> c_start fixed cc (Some true) x stls hosted = (st', ev, err) ->
+  cinv st' /\ forallb (secure_b RC) ev = true.
+Proof.
+  intros fixed cc x stls hosted st' ev err Hok Hstep. unfold c_start in Hstep.
+  destruct stls; simpl in Hstep.
+  - (* TLS port: connected *)
+    destruct (c_start_sink fixed cc (Some true)) as [ev3 [sc|e]] eqn:E; inversion Hstep; subst; clear Hstep.
+    + destruct (start_sink_secure _ _ _ _ Hok E) as [-> Hev3].
+      split; [split; [reflexivity | simpl; intros s H; now inversion H]|].
+      cbn [app forallb]. rewrite forallb_app, flat_map_contact_secure, Hev3. reflexivity.
+    + apply start_sink_err_secure in E; subst ev3.
+      split; [split; [reflexivity | simpl; intros s H; discriminate]|].
+      cbn [app forallb]. rewrite forallb_app, flat_map_contact_secure. reflexivity.
+  - (* plaintext port: ssl.SSLError, nothing else happens *)
+    inversion Hstep; subst. split; [split; [reflexivity | simpl; intros s H; discriminate] | reflexivity].
+Qed.
+
 Lemma cstep_secure : forall fixed cc st i st' ev err,
   sink_ok fixed cc -> cinv st -> cstep fixed cc st i = (st', ev, err) ->
   cinv st' /\ forallb (secure_b RC) ev = true.
 Proof.
   intros fixed cc st i st' ev err Hok [Hi Hs] Hstep.
   destruct st as [i0 run sk]; simpl in Hi, Hs; subst i0.
-  destruct i as [x stls hosted | a stls | a stls | a stls |]; simpl in Hstep.
+  destruct i as [x stls hosted | a stls | a stls | a stls | | x stls hosted]; simpl in Hstep.
   - (* CStart *)
     destruct run; [inversion Hstep; subst; split; [split; auto | reflexivity]|].
-    destruct stls; simpl in Hstep.
-    + (* TLS port: connected *)
-      destruct (c_start_sink fixed cc (Some true)) as [ev3 [sc|e]] eqn:E; inversion Hstep; subst; clear Hstep.
-      * destruct (start_sink_secure _ _ _ _ Hok E) as [-> Hev3].
-        split; [split; [reflexivity | simpl; intros s H; now inversion H]|].
-        cbn [app forallb]. rewrite forallb_app, flat_map_contact_secure, Hev3. reflexivity.
-      * apply start_sink_err_secure in E; subst ev3.
-        split; [split; [reflexivity | simpl; intros s H; discriminate]|].
-        cbn [app forallb]. rewrite forallb_app, flat_map_contact_secure. reflexivity.
-    + (* plaintext port: ssl.SSLError, nothing else happens *)
-      inversion Hstep; subst. split; [split; auto | reflexivity].
+    exact (c_start_secure _ _ _ _ _ _ _ _ Hok Hstep).
   - (* CRequest *)
     destruct run; inversion Hstep; subst; (split; [split; auto|]); [apply contact_secure_C | reflexivity].
   - (* CSubscribe *)
@@ -156,8 +164,10 @@ Proof.
     rewrite (Hs sc eq_refl). destruct stls; reflexivity.
   - (* CProbe *)
     destruct run; inversion Hstep; subst; (split; [split; auto|]); [apply contact_secure_C | reflexivity].
-  - (* CStop *)
+  - (* CStop: is_ssl_connection survives *)
     inversion Hstep; subst. split; [split; [reflexivity | simpl; intros s H; discriminate] | reflexivity].
+  - (* CRestart: stop, then start with the surviving is_ssl_connection *)
+    exact (c_start_secure _ _ _ _ _ _ _ _ Hok Hstep).
 Qed.
 
 Lemma crun_secure_b : forall fixed cc ins st,
@@ -169,6 +179,14 @@ Proof.
   rewrite forallb_app, Hev, IH by assumption. reflexivity.
 Qed.
 
+Lemma cfinal_inv : forall fixed cc ins st,
+  sink_ok fixed cc -> cinv st -> cinv (cfinal fixed cc st ins).
+Proof.
+  intros fixed cc ins; induction ins as [|i r IH]; intros st Hok Hinv; simpl; [exact Hinv|].
+  destruct (cstep fixed cc st i) as [[st' ev] err] eqn:E. cbn [fst].
+  apply IH; [exact Hok|]. exact (proj1 (cstep_secure _ _ _ _ _ _ _ Hok Hinv E)).
+Qed.
+
 Lemma cinv_init : cinv (c_init (Some true)).
 Proof. split; [reflexivity | simpl; intros s H; discriminate]. Qed.
 
@@ -178,6 +196,15 @@ Lemma consumer_enforced_never_plain : forall fixed cc i ins,
 Proof.
   intros fixed cc i ins Hm Hc Hok. rewrite Hm in Hc. simpl in Hc. inversion Hc; subst i.
   apply forallb_secure. apply crun_secure_b; [exact Hok | apply cinv_init].
+Qed.
+
+(* enforced stays enforced: is_ssl_connection is True after every history, whatever stop / start / restart it holds *)
+Lemma consumer_enforced_stays_enforced : forall fixed cc i ins,
+  c_mode cc = CEnforced -> c_ctor (c_mode cc) = Some i -> sink_ok fixed cc ->
+  isc (cfinal fixed cc (c_init i) ins) = Some true.
+Proof.
+  intros fixed cc i ins Hm Hc Hok. rewrite Hm in Hc. simpl in Hc. inversion Hc; subst i.
+  exact (proj1 (cfinal_inv fixed cc ins _ Hok cinv_init)).
 Qed.
 
 (* the code as found: an enforced consumer on a plaintext shared server advertises http NotifyTo / EndTo *)
@@ -289,21 +316,28 @@ Proof.
   - destruct (fixed && isc_true i && negb (is_https s)); reflexivity.
 Qed.
 
+Lemma c_start_by_role : forall fixed cc i x stls hosted,
+  forallb (by_role RC) (snd (fst (c_start fixed cc i x stls hosted))) = true.
+Proof.
+  intros fixed cc i x stls hosted. unfold c_start.
+  pose proof (c_connect_by_role i (a_host x) stls) as H1.
+  destruct (c_connect i (a_host x) stls) as [ev1 [i'|e]]; cbn [fst snd] in *; [|exact H1].
+  pose proof (c_start_sink_by_role fixed cc i') as H3.
+  destruct (c_start_sink fixed cc i') as [ev3 [sc|e]]; cbn [fst snd] in *;
+    rewrite !forallb_app, H1, H3, flat_map_contact_by_role; reflexivity.
+Qed.
+
 Lemma cstep_by_role : forall fixed cc st i,
   forallb (by_role RC) (snd (fst (cstep fixed cc st i))) = true.
 Proof.
-  intros fixed cc st i. destruct i as [x stls hosted | a stls | a stls | a stls |]; cbn [cstep].
-  - destruct (running st); [reflexivity|].
-    pose proof (c_connect_by_role (isc st) (a_host x) stls) as H1.
-    destruct (c_connect (isc st) (a_host x) stls) as [ev1 [i'|e]]; cbn [fst] in H1; [|exact H1].
-    pose proof (c_start_sink_by_role fixed cc i') as H3.
-    destruct (c_start_sink fixed cc i') as [ev3 [sc|e]]; cbn [fst snd] in *;
-      rewrite !forallb_app, H1, H3, flat_map_contact_by_role; reflexivity.
+  intros fixed cc st i. destruct i as [x stls hosted | a stls | a stls | a stls | | x stls hosted]; cbn [cstep].
+  - destruct (running st); [reflexivity | apply c_start_by_role].
   - destruct (running st); cbn [fst snd]; [apply contact_by_role | reflexivity].
   - destruct (running st); [|reflexivity]. destruct (sink st); [|reflexivity]. cbn [fst snd].
     rewrite forallb_app, contact_by_role. destruct (handshake _ _); reflexivity.
   - destruct (running st); cbn [fst snd]; [apply contact_by_role | reflexivity].
   - reflexivity.
+  - apply c_start_by_role.
 Qed.
 
 (* folds: a predicate that holds for the events of every step holds for the accumulated events *)
@@ -344,21 +378,63 @@ Section Scenario.
     split; [exact Hi'|]. rewrite forallb_app, Hc. apply pfold_all; [exact HP | reflexivity].
   Qed.
 
-  Lemma sys_step_all : forall s o, I (snd s) ->
-    I (snd (fst (sys_step c s o))) /\ forallb Q (snd (sys_step c s o)) = true.
+  Lemma op_step_all : forall s ptls o, I (snd s) ->
+    I (snd (fst (op_step c s ptls o))) /\ forallb Q (snd (op_step c s ptls o)) = true.
   Proof.
-    intros s o Hi. unfold sys_step.
-    destruct (negb (running (snd s))); [split; [exact Hi | reflexivity]|].
-    destruct o; apply both_all; exact Hi.
+    intros s ptls o Hi. unfold op_step.
+    destruct o; try (apply both_all; exact Hi); split; try exact Hi; reflexivity.
   Qed.
 
-  Lemma sfold_all : forall l s ev, I (snd s) -> forallb Q ev = true ->
-    I (snd (fst (sfold c l (s, ev)))) /\ forallb Q (snd (sfold c l (s, ev))) = true.
+  Lemma start_step_all : forall again s ptls, I (snd s) ->
+    I (snd (fst (fst (start_step c again s ptls)))) /\ forallb Q (snd (fst (start_step c again s ptls))) = true.
   Proof.
-    induction l as [|o l IH]; intros s ev Hi Hev; [split; assumption|].
-    unfold sfold in *. cbn [fold_left]. destruct (sys_step_all s o Hi) as [Hi' Hs].
-    destruct (sys_step c s o) as [s' e]. cbn [fst snd] in *.
-    apply IH; [exact Hi'|]. rewrite forallb_app, Hev. exact Hs.
+    intros again s ptls Hi. unfold start_step.
+    set (inp := if again then CRestart _ _ _ else CStart _ _ _).
+    destruct (HC (snd s) inp Hi) as [Hi1 H1].
+    destruct (cstep (s_fixed c) (s_cc c) (snd s) inp) as [[cs1 ev1] err]. cbn [fst snd] in Hi1, H1.
+    set (p1 := if match err with Some ESsl | Some ENotConnected => false | _ => true end
+               then pfold (s_pc c) [PGetMetadata; PHostedMetadata] (fst s, []) else (fst s, [])).
+    assert (Hp1 : forallb Q (snd p1) = true).
+    { unfold p1. destruct (match err with Some ESsl | Some ENotConnected => false | _ => true end);
+        [apply pfold_all; [exact HP | reflexivity] | reflexivity]. }
+    set (r2 := if running cs1 then op_step c (fst p1, cs1) ptls OResubscribe else ((fst p1, cs1), [])).
+    assert (Hr2 : I (snd (fst r2)) /\ forallb Q (snd r2) = true).
+    { unfold r2. destruct (running cs1); [apply op_step_all; exact Hi1 | split; [exact Hi1 | reflexivity]]. }
+    destruct Hr2 as [Hi2 H2]. cbn [fst snd].
+    split; [exact Hi2|]. rewrite !forallb_app, H1, Hp1, H2. reflexivity.
+  Qed.
+
+  Definition acc_ok (a : sacc) : Prop := I (snd (fst (fst a))) /\ forallb Q (fst (snd a)) = true.
+
+  Lemma sys_step_all : forall a o, acc_ok a -> acc_ok (sys_step c a o).
+  Proof.
+    intros [[s ptls] [evs codes]] o [Hi Hev]. cbn [fst snd] in Hi, Hev. unfold sys_step.
+    destruct o;
+      try (destruct (running (snd s)); [|split; cbn [fst snd]; assumption];
+           match goal with |- context [op_step c s ptls ?o] => destruct (op_step_all s ptls o Hi) as [Hi' He] end;
+           split; cbn [fst snd];
+           [exact Hi' | rewrite forallb_app, Hev; exact He]).
+    - (* OStart *)
+      destruct (running (snd s)); [split; cbn [fst snd]; assumption|].
+      destruct (start_step_all false s ptls Hi) as [Hi' He].
+      destruct (start_step c false s ptls) as [[s' ev] code]. cbn [fst snd] in *.
+      split; cbn [fst snd]; [exact Hi' | rewrite forallb_app, Hev; exact He].
+    - (* ORestart *)
+      set (r := if running (snd s) then op_step c s ptls OUnsubscribe else (s, [])).
+      assert (Hr : I (snd (fst r)) /\ forallb Q (snd r) = true).
+      { unfold r. destruct (running (snd s)); [apply op_step_all; exact Hi | split; [exact Hi | reflexivity]]. }
+      destruct Hr as [Hir Her].
+      destruct (start_step_all true (fst r) ptls Hir) as [Hi' He].
+      destruct (start_step c true (fst r) ptls) as [[s' ev] code]. cbn [fst snd] in *.
+      split; cbn [fst snd]; [exact Hi' | rewrite !forallb_app, Hev, Her; exact He].
+    - (* OPeerFlip *)
+      split; cbn [fst snd]; assumption.
+  Qed.
+
+  Lemma sfold_all : forall l a, acc_ok a -> acc_ok (sfold c l a).
+  Proof.
+    induction l as [|o l IH]; intros a Ha; [exact Ha|].
+    unfold sfold in *. cbn [fold_left]. apply IH. apply sys_step_all. exact Ha.
   Qed.
 
   Lemma run_events_all :
@@ -369,26 +445,13 @@ Section Scenario.
     pose proof (pfold_all Q _ HP [PStart; PPublish] [] [] eq_refl) as H0.
     destruct (match s_x c with XBad => None | _ => c_ctor (c_mode (s_cc c)) end) as [i0|]; [|exact H0].
     specialize (Hinit i0 eq_refl).
-    destruct (HC (c_init i0) (CStart (x_given c) (p_listen_tls (s_pc c)) (repeat (p_base (s_pc c)) n_hosted)) Hinit)
-      as [Hi1 H1].
-    destruct (cstep (s_fixed c) (s_cc c) (c_init i0) _) as [[cs1 ev1] err]. cbn [fst snd] in Hi1, H1.
     set (p0 := pfold (s_pc c) [PStart; PPublish] ([], [])) in *.
-    set (p1 := if match err with Some ESsl | Some ENotConnected => false | _ => true end
-               then pfold (s_pc c) [PGetMetadata; PHostedMetadata] (fst p0, []) else (fst p0, [])).
-    assert (Hp1 : forallb Q (snd p1) = true).
-    { unfold p1. destruct (match err with Some ESsl | Some ENotConnected => false | _ => true end);
-        [apply pfold_all; [exact HP | reflexivity] | reflexivity]. }
-    set (r2 := if running cs1 then sys_step c (fst p1, cs1) OResubscribe else ((fst p1, cs1), [])).
-    assert (Hr2 : I (snd (fst r2)) /\ forallb Q (snd r2) = true).
-    { unfold r2. destruct (running cs1); [apply sys_step_all; exact Hi1 | split; [exact Hi1 | reflexivity]]. }
-    destruct Hr2 as [Hi2 H2].
-    set (r3 := sfold c (s_ops c) (fst r2, [])).
-    assert (Hr3 : I (snd (fst r3)) /\ forallb Q (snd r3) = true)
-      by (apply sfold_all; [exact Hi2 | reflexivity]).
+    set (r3 := sfold c (OStart :: s_ops c) (fst p0, c_init i0, p_listen_tls (s_pc c), (snd p0, []))).
+    assert (Hr3 : acc_ok r3) by (apply sfold_all; split; [exact Hinit | exact H0]).
     destruct Hr3 as [Hi3 H3]. clearbody r3.
-    cbn [snd]. rewrite !forallb_app, H0, H1, Hp1, H2, H3. cbn [andb].
-    destruct (running (snd (fst r3)) && s_provider_first c); [apply both_all; exact Hi3|].
-    destruct (running (snd (fst r3))); [apply both_all; exact Hi3 | reflexivity].
+    cbn [snd]. rewrite forallb_app, H3. cbn [andb].
+    destruct (running (snd (fst (fst r3))) && s_provider_first c); [apply both_all; exact Hi3|].
+    destruct (running (snd (fst (fst r3)))); [apply both_all; exact Hi3 | reflexivity].
   Qed.
 End Scenario.
 
